@@ -3,6 +3,7 @@ package main
 import (
 	"fmt"
 	"go/ast"
+	"go/scanner"
 	"go/token"
 	"go/types"
 	"sort"
@@ -141,7 +142,7 @@ func (fr *frame) lookupLocal(name string, pos token.Pos) *Cell {
 			}
 		}
 	}
-	if a := fr.anchoredAlloc(name); a != nil {
+	if a := fr.anchoredAllocAt(name, pos); a != nil {
 		if c := fr.cells[a]; c != nil {
 			return c
 		}
@@ -212,6 +213,12 @@ func localTypeString(a *ssa.Alloc) string {
 // (`local name type#k` in the contract): the k-th named local of that type. Used only when the name
 // itself is not declared in the function any more (i.e. the variable was renamed).
 func (fr *frame) anchoredAlloc(name string) *ssa.Alloc {
+	return fr.anchoredAllocAt(name, token.NoPos)
+}
+
+// anchoredAllocAt: as anchoredAlloc; when the name had several declarations (a loop variable declared in several
+// loops) the one that is visible at pos is chosen
+func (fr *frame) anchoredAllocAt(name string, pos token.Pos) *ssa.Alloc {
 	if fr.fc == nil || fr.fc.localAnchors == nil {
 		return nil
 	}
@@ -225,16 +232,35 @@ func (fr *frame) anchoredAlloc(name string) *ssa.Alloc {
 			return nil // the name still exists: normal resolution applies
 		}
 	}
-	k := 0
-	for _, a := range locals {
-		if localTypeString(a) == an.typ {
-			k++
-			if k == an.ord {
-				return a
+	var cands []*ssa.Alloc
+	ords := an.ords
+	if len(ords) == 0 {
+		ords = []int{an.ord}
+	}
+	for _, want := range ords {
+		k := 0
+		for _, a := range locals {
+			if localTypeString(a) == an.typ {
+				k++
+				if k == want {
+					cands = append(cands, a)
+				}
 			}
 		}
 	}
-	return nil
+	if len(cands) == 0 {
+		return nil
+	}
+	if len(cands) > 1 && pos.IsValid() && fr.fn.Pkg != nil {
+		if sc := fr.fn.Pkg.Pkg.Scope().Innermost(pos); sc != nil {
+			for _, a := range cands {
+				if _, obj := sc.LookupParent(a.Comment, pos); obj != nil && obj.Pos() == a.Pos() {
+					return a
+				}
+			}
+		}
+	}
+	return cands[0]
 }
 
 type machine struct {
@@ -509,6 +535,32 @@ func (x *executor) verify(key string) (err error) {
 		fr.env[p] = v
 		x.params[p.Name()] = v
 		x.params[p.Name()+"0"] = v
+	}
+	// a renamed parameter: the name the contract uses is an alias of the parameter its anchor points to
+	if x.fc.localAnchors != nil {
+		locals := namedLocals(x.fn)
+		declared := map[string]bool{}
+		for _, a := range locals {
+			declared[a.Comment] = true
+		}
+		for oldName, an := range x.fc.localAnchors {
+			if declared[oldName] {
+				continue
+			}
+			k := 0
+			for _, a := range locals {
+				if localTypeString(a) == an.typ {
+					k++
+					if k == an.ord {
+						if v, ok := x.params[a.Comment+"0"]; ok {
+							if _, have := x.params[oldName+"0"]; !have {
+								x.params[oldName+"0"] = v
+							}
+						}
+					}
+				}
+			}
+		}
 	}
 	// closures verified standalone: free variables are pointers to symbolic cells
 	var selfCell *Cell
@@ -1321,7 +1373,7 @@ func (x *executor) runAts(m *machine, fr *frame, in ssa.Instruction) {
 	}
 	var before *state
 	for _, at := range fr.fc.ats {
-		if at.stmt != txt || at.kind == "cut" {
+		if fr.effStmt(at, in.Pos()) != txt || at.kind == "cut" {
 			continue
 		}
 		if at.nth > 0 && x.occurrenceOf(fr.fn, in, txt) != at.nth {
@@ -1462,7 +1514,7 @@ func (x *executor) cutsAt(fr *frame, b *ssa.BasicBlock) []*atClause {
 		}
 		txt := x.sourceOf(fr.fn, in)
 		for _, at := range fr.fc.ats {
-			if at.kind == "cut" && at.stmt == txt {
+			if at.kind == "cut" && fr.effStmt(at, in.Pos()) == txt {
 				dup := false
 				for _, o := range out {
 					if o == at {
@@ -1923,4 +1975,50 @@ func (x *executor) mergeAtLoop(m *machine, fr *frame, li *loopInfo) bool {
 	fr.block = save
 	x.note(fmt.Sprintf("loop %d of %s: the paths reaching the loop are merged (each proves the invariants; the continuation knows only the entry condition and the invariants)", li.ordinal, fr.key))
 	return true
+}
+
+// effStmt: the statement text of an `at` clause as it reads in the current source. A local variable named in the
+// text that no longer exists in the function (it was renamed) is replaced by the current name of the variable its
+// `local name type#k` anchor points to; names that still exist are left alone, so using a different existing
+// variable in the statement still breaks the anchor.
+func (fr *frame) effStmt(at *atClause, pos token.Pos) string {
+	if fr.fc == nil || fr.fc.localAnchors == nil {
+		return at.stmt
+	}
+	type key struct {
+		fn  *ssa.Function
+		pos token.Pos
+	}
+	if at.eff != nil {
+		if s, ok := at.eff[key{fr.fn, pos}]; ok {
+			return s
+		}
+	}
+	fs := token.NewFileSet()
+	f := fs.AddFile("", fs.Base(), len(at.stmt))
+	var sc scanner.Scanner
+	sc.Init(f, []byte(at.stmt), nil, 0)
+	var sb strings.Builder
+	last := 0
+	for {
+		p, tok, lit := sc.Scan()
+		if tok == token.EOF {
+			break
+		}
+		if tok == token.IDENT {
+			if a := fr.anchoredAllocAt(lit, pos); a != nil && a.Comment != lit {
+				off := f.Offset(p)
+				sb.WriteString(at.stmt[last:off])
+				sb.WriteString(a.Comment)
+				last = off + len(lit)
+			}
+		}
+	}
+	sb.WriteString(at.stmt[last:])
+	out := sb.String()
+	if at.eff == nil {
+		at.eff = map[interface{}]string{}
+	}
+	at.eff[key{fr.fn, pos}] = out
+	return out
 }
